@@ -71,7 +71,9 @@ def agree (n : Nat) (f g : Nat → Fp p) : Bool := (List.range n).all (fun i => 
 /-- `some d` = degree of the coefficient function below `n`, `none` for zero -/
 def degBelow (n : Nat) (f : Nat → Fp p) : Option Nat :=
   (List.range n).foldl (fun acc i => if f i != 0 then some i else acc) none
-def evalFn (n : Nat) (f : Nat → Fp p) (x : Fp p) : Fp p := sumTo n (fun i => f i * Fp.pow x i)
+/-- `Σ_{i<n} f i · x^i` with a running power -/
+def evalFn (n : Nat) (f : Nat → Fp p) (x : Fp p) : Fp p :=
+  ((List.range n).foldl (fun (st : Fp p × Fp p) i => (st.1 + f i * st.2, st.2 * x)) (0, 1)).1
 def allZero (n : Nat) (f : Nat → Fp p) : Bool := (List.range n).all (fun i => f i == 0)
 
 def judgeD (impl : String) (n : Nat) (want : Nat → Fp p) : String :=
